@@ -195,6 +195,24 @@ def f(self, name, data, context):
 """
 
 
+_DB = {}
+
+
+def unit_db_for(repo):
+    if repo.root not in _DB:
+        db = dims.DB()
+        base, derived, other, prefixes = c10.lift_tables(repo)
+        for name, mult, prim in base:
+            db.units[name] = dims.Q.base(prim, Fraction(repr(float(mult))))
+        for name, text in list(derived) + list(other):
+            try:
+                db.units[name] = db.eval(text)
+            except dims.UnitSyntaxError:
+                pass
+        _DB[repo.root] = db
+    return _DB[repo.root]
+
+
 def schema_of(repo):
     node = repo.class_assign(INC, 'ThermochemIncomplete', '_yaml_schema')
     if not (isinstance(node, ast.Constant) and isinstance(node.value, str)):
@@ -265,6 +283,31 @@ def run(chk, repo, tier):
         for i in its), INC, snode, key='schema:range',
         qualname='ThermochemIncomplete._yaml_schema',
         what='range is a pair of temperatures', found=str(its))
+    # defaults of quantity members carry their own unit (an omitted member
+    # must not depend on the file's default units)
+    for key, ent in sorted(schema.items()):
+        if isinstance(ent, dict) and ent.get('type') == 'qty' \
+                and 'default' in ent:
+            d = ent['default']
+            okd = False
+            if isinstance(d, str):
+                try:
+                    from .. import dims as _d
+                    q0 = unit_db_for(repo).eval(d)
+                    kd = unit_db_for(repo).eval(KIND_UNIT[ent.get('kind')])
+                    okd = tuple(q0.dim) == tuple(kd.dim)
+                except Exception:
+                    okd = False
+            chk.ob('R12.1', okd, INC, snode, key='schema-default:' + key,
+                   qualname='ThermochemIncomplete._yaml_schema',
+                   what='the default of %s is a quantity text with its own '
+                        'unit of the right dimension' % key, found=repr(d))
+    tref = schema.get('T_ref') or {}
+    chk.ob('R12.1', tref.get('default') == '298.15 K', INC, snode,
+           key='schema-default-value:T_ref',
+           qualname='ThermochemIncomplete._yaml_schema',
+           what='an omitted T_ref is 298.15 K', found=repr(tref.get(
+               'default')))
     # optional/default attributes: zero must not be confused with absent
     for key in ('H_ref', 'S_ref', 'ND_H_ref', 'ND_S_ref', 'Cp_data',
                 'ND_Cp_data', 'range'):
@@ -404,6 +447,13 @@ def run(chk, repo, tier):
         key='units-from-file', what="context['units'] = the file's own "
                                     'units block')
     yaml_machinery(chk, repo, 'R12.6')
+    # ---- R12.7 the unit definitions the presentations rely on ----------------
+    c10.unit_tables(chk, repo, 'R12.7', 'R12.7')
+    from .. import refcmp as _rc
+    _rc.check(chk, 'R12.7', c10.DBF, repo.func(c10.DBF, 'UnitsDB.lookup'),
+              c10.LOOKUP, key='UnitsDB.lookup',
+              what='prefixed names resolve as documented (any compatible '
+                   'unit and prefix)')
     # ---- R12.5 data -------------------------------------------------------
     nfiles = 0
     for lib in libraries(repo.root):
